@@ -249,7 +249,9 @@ theorem sames_applySetting {st st' : State} {sm sm' : Bool} {p : Nat × Nat}
     (h : applySetting st sm p = some (st', sm')) : SameS st st' := by
   unfold applySetting at h
   split at h
-  · cases h; exact ⟨rfl, rfl, rfl, rfl, rfl, rfl, rfl⟩
+  · split at h
+    · cases h
+    · cases h; exact ⟨rfl, rfl, rfl, rfl, rfl, rfl, rfl⟩
   · split at h
     · cases h; exact ⟨rfl, rfl, rfl, rfl, rfl, rfl, rfl⟩
     · split at h
